@@ -1,5 +1,17 @@
 (* C02 — Segment metadata inheritance never changes what is read.
-   Statements only; proofs in Proofs/SegStateProofs.v and Proofs/SegStateInherit.v.
+   Statements only; proofs in Proofs/SegStateProofs.v, Proofs/SegStateInherit.v
+   (one segment) and Proofs/SegStateExplicit.v (whole streams and files).
+
+   MAIN STATEMENT: [inheritance_transparent] (end of this file): for every
+   stream of segments the metadata pass accepts, the fully explicit
+   re-encoding [explicit_segs] of the same content is accepted too and reads
+   the same object lists, path indexes, chunk counts, final-chunk overrides,
+   per-object lengths / data types / scaler types / properties (same order)
+   and previous-object map; only the segment positions differ (the explicit
+   metadata blocks have other byte lengths).  [sm_run] is the reader's
+   metadata pass on file syntax (Model/FileSyn.v); Proofs/FileSynProofs.v
+   proves it equal to reading the serialised bytes, whence
+   [inheritance_transparent_files].
 
    The mechanism model is Model/SegState.v (replace-at-index through an index
    map built ONCE per segment from the copied list; global previous-object map
@@ -21,7 +33,8 @@
 From Coq Require Import List ZArith.
 Import ListNotations.
 From NpTdms Require Import Base.Bytes Base.Res Model.Tokens Model.SegState Model.Layout Model.Reader
-     Proofs.SegStateProofs Proofs.SegStateInherit.
+     Model.FileSyn Proofs.SegStateProofs Proofs.SegStateInherit Proofs.FileSynProofs
+     Proofs.SegStateExplicit.
 Local Open Scope Z_scope.
 
 (* the path -> position index cache never returns a stale or foreign index:
@@ -197,6 +210,79 @@ Theorem state_invariants_preserved : forall objs n f prev_objs om prev' om',
     prev_keys_ok prev' /\ prev_wf prev' /\ base_tracked (Some objs) prev'.
 Proof. exact SegStateInherit.state_invariants_preserved. Qed.
 
+(* ---- the multi-segment statement ----------------------------------------------- *)
+
+(* [explicit_segs segs objss]: segment i keeps its version, raw data and ToC
+   flags, gets the metadata and new-object-list flags, and a metadata block
+   restating every object of [objss_i] ([idx_of]: full index or "no data")
+   with the properties the original block attached to that path. *)
+Theorem inheritance_transparent : forall segs w st,
+    sm_run segs w = Ok st ->
+    (* no segment's object list mentions a path twice *)
+    Forall (fun g => NoDup (map so_path (sg_objs g))) (rs_segments st) ->
+    (* no object has data without ever having received an index ("no data"
+       followed by "matches previous", which the reader accepts) *)
+    Forall (fun g => forall o, In o (sg_objs g) -> so_has_data o = true -> so_dtype o <> None)
+           (rs_segments st) ->
+    exists st',
+      sm_run (explicit_segs segs (map sg_objs (rs_segments st))) w = Ok st' /\
+      map sg_objs (rs_segments st') = map sg_objs (rs_segments st) /\
+      map sg_index (rs_segments st') = map sg_index (rs_segments st) /\
+      map sg_nchunks (rs_segments st') = map sg_nchunks (rs_segments st) /\
+      map sg_final (rs_segments st') = map sg_final (rs_segments st) /\
+      map (fun g => sg_next g - sg_data g) (rs_segments st') =
+        map (fun g => sg_next g - sg_data g) (rs_segments st) /\
+      map sg_incomplete (rs_segments st') = map sg_incomplete (rs_segments st) /\
+      map sg_toc (rs_segments st') = map explicit_toc (map sg_toc (rs_segments st)) /\
+      rs_om st' = rs_om st /\
+      rs_prev_objs st' = rs_prev_objs st /\
+      rs_version st' = rs_version st.
+Proof. exact SegStateExplicit.inheritance_transparent. Qed.
+
+(* the uniqueness condition from the syntax: no metadata block lists a path twice *)
+Theorem inheritance_transparent_listed_once : forall segs w st,
+    sm_run segs w = Ok st ->
+    Forall listed_once segs ->
+    Forall (fun g => forall o, In o (sg_objs g) -> so_has_data o = true -> so_dtype o <> None)
+           (rs_segments st) ->
+    exists st',
+      sm_run (explicit_segs segs (map sg_objs (rs_segments st))) w = Ok st' /\ same_reading st st'.
+Proof. exact SegStateExplicit.inheritance_transparent_listed_once. Qed.
+
+(* on the bytes of serialised files *)
+Theorem inheritance_transparent_files : forall segs w st,
+    wf_file segs ->
+    rd_metadata (ser_file segs) false (Some (blen (ser_file segs))) w = Ok st ->
+    Forall listed_once segs ->
+    Forall (fun g => forall o, In o (sg_objs g) -> so_has_data o = true -> so_dtype o <> None)
+           (rs_segments st) ->
+    let segs' := explicit_segs segs (map sg_objs (rs_segments st)) in
+    wf_file segs' ->
+    exists st',
+      rd_metadata (ser_file segs') false (Some (blen (ser_file segs'))) w = Ok st' /\
+      same_reading st st'.
+Proof. exact SegStateExplicit.inheritance_transparent_files. Qed.
+
+(* shape of the explicit stream *)
+Theorem explicit_segs_shape : forall segs objss,
+    Forall (fun objs => NoDup (map so_path objs)) objss ->
+    Forall (fun s => listed_once s /\ fs_meta s <> None /\
+                     toc_has (fs_toc s) TOC_META = true /\ toc_has (fs_toc s) TOC_NEWLIST = true)
+           (explicit_segs segs objss).
+Proof. exact SegStateExplicit.explicit_segs_shape. Qed.
+
+Theorem explicit_segs_kept : forall segs objss,
+    length objss = length segs ->
+    map fs_version (explicit_segs segs objss) = map fs_version segs /\
+    map fs_data (explicit_segs segs objss) = map fs_data segs /\
+    map fs_toc (explicit_segs segs objss) = map explicit_toc (map fs_toc segs).
+Proof. exact SegStateExplicit.explicit_segs_kept. Qed.
+
+Theorem explicit_toc_other_flags : forall toc flag,
+    Z.land TOC_META flag = 0 -> Z.land TOC_NEWLIST flag = 0 ->
+    toc_has (explicit_toc toc) flag = toc_has toc flag.
+Proof. exact SegStateExplicit.explicit_toc_other. Qed.
+
 Print Assumptions index_cache_transparent.
 Print Assumptions positional_update_is_update_by_path.
 Print Assumptions new_list_update_is_update_by_path.
@@ -233,3 +319,13 @@ Print Assumptions forbidden_rejected_unseen_match_prev_instance.
 Print Assumptions forbidden_rejected_type_change_instance.
 Print Assumptions prev_objs_tracks_segments_instance.
 Print Assumptions inheritance_transparent_step_instance.
+Print Assumptions inheritance_transparent.
+Print Assumptions inheritance_transparent_listed_once.
+Print Assumptions inheritance_transparent_files.
+Print Assumptions explicit_segs_shape.
+Print Assumptions explicit_segs_kept.
+Print Assumptions explicit_toc_other_flags.
+Print Assumptions ex_stream_run.
+Print Assumptions ex_stream_explicit.
+Print Assumptions inheritance_transparent_instance.
+Print Assumptions inheritance_transparent_files_instance.
